@@ -606,7 +606,7 @@ func (w *panelWorld) launch(p *panelProc) {
 func (w *panelWorld) runConn(p *panelProc) {
 	uid, sid := w.uid[p.op.U], uint32(p.op.S)
 	var key [32]byte
-	common.RandRead(w.env.mgr.(interface{}).(any).(usermanager.UserManager) != nil && false, key[:0]) // (no-op; key below)
+	// dispatcher.go:176: a fresh session key per connection
 	copy(key[:], w.env.rng.Bytes(32))
 	user, err := w.panel.GetUser(uid)
 	if err != nil {
@@ -625,9 +625,17 @@ func (w *panelWorld) runConn(p *panelProc) {
 	}
 	// reply sealed with sesh.GetSessionKey(); sesh.AddConnection(preparedConn)
 	if existing {
-		w.mu.Lock()
-		idx := w.objIdx[sesh]
-		w.mu.Unlock()
+		// the creator registers the session right after its GetSession returns; a connection that was blocked on
+		// sessionsM behind the creator can get here first
+		idx := 0
+		for i := 0; i < 2000 && idx == 0; i++ {
+			w.mu.Lock()
+			idx = w.objIdx[sesh]
+			w.mu.Unlock()
+			if idx == 0 {
+				time.Sleep(50 * time.Microsecond)
+			}
+		}
 		if idx == 0 {
 			p.panic = "GetSession returned a session nobody created"
 			return
@@ -846,7 +854,7 @@ func (w *panelWorld) deadlocked() (bool, string) {
 			blk = append(blk, fn+"/"+p.lock)
 		}
 	}
-	if len(blk) < 2 {
+	if len(blk) == 0 {
 		return false, ""
 	}
 	sort.Strings(blk)
